@@ -418,7 +418,9 @@ func (g *docGen) render(n *cnode) string {
 			sb.WriteString("<td>" + g.words(g.short) + "</td>")
 		}
 		for _, c := range n.kids {
-			sb.WriteString("<td" + g.noiseAttrs() + ">" + g.render(c) + "</td>")
+			// header cells do not make a one-row table a data table
+			cell := g.pick("td", "td", "th")
+			sb.WriteString("<" + cell + g.noiseAttrs() + ">" + g.render(c) + "</" + cell + ">")
 		}
 		sb.WriteString("</tr></table>")
 		return sb.String()
